@@ -166,6 +166,8 @@ type Hooks struct {
 	// LoopNeutral tells whether one loop iteration left the tracked state
 	// unchanged (defaults to SameEffect).
 	LoopNeutral func(a, b *State) bool
+	// BinOp may give a domain-specific result for a binary operation on abstract values.
+	BinOp func(l Value, op token.Token, r Value) (Value, bool)
 	// CaseMatch is told that a tagged switch with a non-constant tag takes
 	// (taken) or skips the case expression; returning false drops the path.
 	CaseMatch func(in *Interp, st *State, tag Value, caseExpr ast.Expr, taken bool) bool
@@ -1026,6 +1028,12 @@ func (in *Interp) eval(st *State, e ast.Expr) []valState {
 		var out []valState
 		for _, l := range in.eval(st, e.X) {
 			for _, r := range in.eval(l.st, e.Y) {
+				if in.h.BinOp != nil {
+					if v, ok := in.h.BinOp(l.v, e.Op, r.v); ok {
+						out = append(out, valState{r.st, v})
+						continue
+					}
+				}
 				out = append(out, valState{r.st, in.binop(l.v, e.Op, r.v)})
 			}
 		}
